@@ -251,8 +251,9 @@ def main(argv):
             want = join([l for l in recs if l not in srecs])
             if st != 0 or out != want:
                 got = out.split(b"\n")[:-1]
-                wrong_removed = [l for l in recs if l not in srecs and l not in got][:2]
-                wrong_kept = [l for l in got if l in srecs][:2]
+                keepable = [l for l in recs if l not in srecs]
+                wrong_removed = sorted(set(l for l in keepable if got.count(l) < keepable.count(l)))[:2]
+                wrong_kept = sorted(set(l for l in got if l in srecs))[:2]
                 c.violation("set-subtraction: subtract_lines must remove every copy of every subtrahend line and nothing else; wrongly removed %r, wrongly kept %r (status %s)" % (wrong_removed, wrong_kept, st),
                             {"tool": "subtract_lines", "subtrahend_hex": sub[:3000].hex(), "stdin_hex": data[:3000].hex(), "out_hex": out[:3000].hex(), "expected_hex": want[:3000].hex(),
                              "how": "bin/subtract_lines subtrahend < stdin"})
